@@ -28,6 +28,8 @@ class CallMixin:
             r = self.resolve_name(f.id)
             if r is not None and r[0] == 'contract':
                 return self.reg.contracts[r[1]].pure
+            if r is not None and r[0] == 'dispatch':
+                return all(self.reg.contracts[t].pure for t in r[1].values())
             return False
         if isinstance(f, ast.Attribute):
             if f.attr in STR_METHODS or f.attr in ('keys', 'values', 'items', 'get', 'rindex', 'index'):
@@ -61,8 +63,25 @@ class CallMixin:
             m = getattr(self, 'bi_' + name, None)
             r = self.resolve_name(name)
             if r is not None:
+                if r[0] == 'dispatch':
+                    # one constructor, several meanings selected by its literal first argument (Tree('expansion', ..) / Tree('expansions', ..))
+                    if not (e.args and isinstance(e.args[0], ast.Constant) and e.args[0].value in r[1]):
+                        _unsup('call to %s: first argument is not one of the literal tags %s' % (name, sorted(r[1])), e)
+                    r = ('contract', self.c.ghost.get('callee:' + self.call_ordinal(e), r[1][e.args[0].value]))
                 if r[0] == 'contract':
                     c = self.reg.contracts[r[1]]
+                    if c.pure and c.assumed and not self.specmode and not e.keywords and all(self.is_pure(a) for a in e.args) \
+                            and any(isinstance(a, (ast.List, ast.BinOp, ast.ListComp)) for a in e.args):
+                        # temporaries built only to be passed to a pure function are mathematical sequences, not heap objects
+                        self.specmode += 1
+                        self.code_as_spec = getattr(self, 'code_as_spec', 0) + 1
+                        try:
+                            vs = [self.ev1(a, st) for a in e.args]
+                        finally:
+                            self.specmode -= 1
+                            self.code_as_spec -= 1
+                        yield from self.apply_contract(c, vs, {}, st, e)
+                        return
                     for (vs, kw), s in self.ev_args(e, st):
                         yield from self.apply_contract(c, vs, kw, s, e)
                     return
@@ -219,8 +238,25 @@ class CallMixin:
                 if m is None:
                     _unsup('int() of %r' % (v.ty,), e)
                 yield from self.apply_contract(m, [v], {}, s, e)
+            elif v.ty.kind == 'any':
+                # int() of a dynamically typed value: an uninterpreted function of the value (ValueError is not modelled: stated by the contract)
+                yield SV(INT, z3.Function('int_of_any', AnyS, I)(v.z)), s
             else:
                 _unsup('int() of %r' % (v.ty,), e)
+
+    def bi_map(self, e, st):
+        """map(int, xs): the element-wise image as a mathematical sequence (only consumed by unpacking / iteration)"""
+        if len(e.args) != 2 or not (isinstance(e.args[0], ast.Name) and e.args[0].id == 'int'):
+            _unsup('map() other than map(int, xs)', e)
+        for xs, s in self.ev(e.args[1], st):
+            sq = self.seq_of(xs, s)
+            if sq.elem.kind != 'any':
+                _unsup('map(int, seq of %r)' % (sq.elem,), e)
+            arr = fresh('map', z3.ArraySort(I, I))
+            i = z3.Int('i!map')
+            f = z3.Function('int_of_any', AnyS, I)
+            s.assume(z3.ForAll([i], z3.Implies(z3.And(0 <= i, i < sq.n), arr[i] == f(sq.arr[i])), patterns=[arr[i]]))
+            yield SeqV(INT, arr, sq.n), s
 
     def bi_bool(self, e, st):
         for v, s in self.ev(e.args[0], st):
@@ -491,6 +527,9 @@ class CallMixin:
         """cast(x, ClassName): view a dynamically typed value as an instance (spec only; guard with isinstance)"""
         v = self.ev1(e.args[0], st)
         cn = e.args[1].id
+        if cn == 'any':
+            yield self.to_any(v), st
+            return
         if cn in ('int', 'str', 'bool'):
             yield self.from_any(v, {'int': INT, 'str': STR, 'bool': BOOL}[cn]) if v.ty.kind == 'any' else v, st
             return
@@ -921,6 +960,9 @@ class CallMixin:
         st.setH(key_card(), z3.Store(st.H(key_card()), r, c))
         yield SV(TSet(elt.ty), r), st
 
+    def simple_elt(self, node):
+        return not any(isinstance(n, (ast.Call, ast.List)) for n in ast.walk(node))
+
     def ev_ListComp(self, e, st):
         # [elt for x in seq] without filter: same length, element-wise image
         if len(e.generators) != 1 or e.generators[0].ifs:
@@ -939,8 +981,21 @@ class CallMixin:
         n0 = len(s2.pc)
         was = self.specmode
         self.specmode += 1
+        skolemised = False
         try:
-            elt = self.ev1(e.elt, s2)
+            if sq is None and not self.simple_elt(e.elt):
+                # the element builds intermediate values (sequences, results of pure calls): evaluate it with every fresh symbol a
+                # function of the bound variable, so that the defining facts can be closed under the quantifier
+                try:
+                    from .ty import skolem_over
+                    with skolem_over(vars_):
+                        elt = self.ev1(e.elt, s2)
+                    skolemised = True
+                except z3.Z3Exception:
+                    del s2.pc[n0:]
+                    elt = self.ev1(e.elt, s2)
+            else:
+                elt = self.ev1(e.elt, s2)
         finally:
             self.specmode = was
         if isinstance(elt, SeqV):
@@ -958,7 +1013,12 @@ class CallMixin:
             args = [self.ev1(a, st) for a in it.args]
             lo, hi = (z3.IntVal(0), args[0].z) if len(args) == 1 else (args[0].z, args[1].z)
             n = z3.If(hi > lo, hi - lo, 0)
-            st.assume(z3.ForAll([v], z3.Implies(z3.And(rng, *sides), arr[v - lo] == elt.z)))
+            if skolemised:
+                j = z3.Int('j!comp')
+                body = z3.substitute(z3.And(*sides, arr[v - lo] == elt.z), (v, lo + j))
+                st.assume(z3.ForAll([j], z3.Implies(z3.And(0 <= j, j < n), z3.simplify(body)), patterns=[arr[j]]))
+            else:
+                st.assume(z3.ForAll([v], z3.Implies(z3.And(rng, *sides), arr[v - lo] == elt.z)))
         res = SeqV(elt.ty, arr, n)
         yield (res if self.specmode else self.new_list(st, elt.ty, arr, n, 'comp')), st
 
@@ -1109,11 +1169,44 @@ class CallMixin:
         if self.specmode:
             if not c.pure:
                 _unsup('impure function %s in specification' % c.target, node)
+            if getattr(self, 'code_as_spec', 0) and c.requires:
+                _unsup('call with a precondition (%s) nested in a pure argument expression: not checked there' % c.target, node)
         tag = c.qualname.replace('<locals>.', '')
         # 1. preconditions
         if not self.specmode:
+            hint = self.c.ghost.get('hint:' + self.call_ordinal(node)) if isinstance(node, ast.Call) else None
+            pre_st = st
+            if hint:
+                # proof steps for the callee's precondition (a cut): every step is an obligation in the full context and is then
+                # available; with isolate=True the precondition itself is proved from the proven steps alone (small query)
+                henv = dict(st.env)
+                henv.update(env)
+                lab = self.label('call.' + tag, node)
+                iso = st.copy()
+                iso.pc = []
+                for i, h in enumerate(hint.get('steps', [])):
+                    self.oblige_spec('hint.%s.s%d' % (lab, i), h, st, node, kind='ghost', env=henv, old=st)
+                    g, sides = self.spec_bool(h, st, env=henv, old=st)
+                    st.assume(*sides)
+                    st.assume(g)
+                    iso.assume(*sides)
+                    iso.assume(g)
+                if hint.get('isolate'):
+                    pre_st = iso
+            iso_which = hint.get('isolate') if hint else None
             for i, r in enumerate(c.requires):
-                self.oblige_spec('pre.%s.r%d' % (self.label('call.' + tag, node), i), r, st, node, kind='pre', env=env, old=st)
+                isolated = pre_st is not st and (iso_which is True or (isinstance(iso_which, (list, tuple)) and i in iso_which))
+                if isolated:
+                    saved_axioms, self.global_axioms = self.global_axioms, (self.global_axioms if hint.get('axioms') else [])
+                try:
+                    cur = pre_st if isolated else st
+                    self.oblige_spec('pre.%s.r%d' % (self.label('call.' + tag, node), i), r, cur, node, kind='pre', env=env, old=cur)
+                finally:
+                    if isolated:
+                        self.global_axioms = saved_axioms
+            if pre_st is not st:
+                for r in c.requires:      # proved (from the steps): facts of the caller's state from here on
+                    self.assume_spec(r, st, env=env, old=st)
             if c.target == self.c.target and c.decreases:
                 m1, s1 = self.spec(c.decreases, st, env=env, old=st)
                 m0, s0 = self.spec(c.decreases, self.entry, old=self.entry)
